@@ -389,13 +389,25 @@ def per_iteration_cells(loop, assigned_in_body, distinct_calls=()):
     is_range = isinstance(loop.iter, ast.Call) and isinstance(loop.iter.func, ast.Name) and loop.iter.func.id == "range"
     # a harness may declare library calls whose results are pairwise distinct (e.g. PyDiGraph.node_indices())
     is_distinct = isinstance(loop.iter, ast.Call) and isinstance(loop.iter.func, ast.Attribute) and loop.iter.func.attr in distinct_calls
-    if not (isinstance(loop.target, ast.Name) and (is_range or is_distinct)):
+    # `for i, x in enumerate(...)`: the positions i are pairwise distinct
+    is_enum = isinstance(loop.iter, ast.Call) and isinstance(loop.iter.func, ast.Name) and loop.iter.func.id == "enumerate" \
+        and isinstance(loop.target, ast.Tuple) and len(loop.target.elts) == 2 and isinstance(loop.target.elts[0], ast.Name)
+    if isinstance(loop.target, ast.Name) and (is_range or is_distinct):
+        t = loop.target.id
+    elif is_enum:
+        t = loop.target.elts[0].id
+    else:
         return set()
-    t = loop.target.id
+
+    def indexed_by_t(sl):
+        if isinstance(sl, ast.Name):
+            return sl.id == t
+        return isinstance(sl, ast.Tuple) and any(isinstance(e, ast.Name) and e.id == t for e in sl.elts)
+
     body = ast.Module(body=loop.body, type_ignores=[])
     cands = set()
     for n in ast.walk(body):
-        if isinstance(n, ast.Subscript) and isinstance(n.ctx, ast.Store) and isinstance(n.slice, ast.Name) and n.slice.id == t:
+        if isinstance(n, ast.Subscript) and isinstance(n.ctx, ast.Store) and indexed_by_t(n.slice):
             cands.add(ast.unparse(n.value))
     parents = {}
     for n in ast.walk(body):
@@ -411,7 +423,7 @@ def per_iteration_cells(loop, assigned_in_body, distinct_calls=()):
         for n in ast.walk(body):
             if isinstance(n, ast.expr) and not isinstance(n, ast.Constant) and ast.unparse(n) == src:
                 p = parents.get(n)
-                if not (isinstance(p, ast.Subscript) and p.value is n and isinstance(p.slice, ast.Name) and p.slice.id == t):
+                if not (isinstance(p, ast.Subscript) and p.value is n and indexed_by_t(p.slice)):
                     ok = False
         if ok:
             out.add(src)
